@@ -28,13 +28,22 @@ type fcase struct {
 	Jitter  int    `json:"jitter"`  // VERIF_JITTER max µs (0 = off), only with Workers > 1
 	Fault   string `json:"fault"`   // none | short | erronly | once | close
 	K       int64  `json:"k"`       // byte offset of the fault in the stream
+	// Errno: "" = the injected error is a private error value; epipe | enospc |
+	// eio | edquot | efbig = it is an *fs.PathError wrapping that errno, what the
+	// operating system returns for a file
+	Errno string `json:"errno,omitempty"`
 }
 
 func (c fcase) configKey() string {
 	return fmt.Sprint(c.Writer, c.Sizes, c.Arrival, c.SeqLen, c.Gzip, c.Close, c.Workers, c.Jitter)
 }
 
-func (c fcase) key() string { return fmt.Sprint(c.configKey(), c.Fault, c.K) }
+func (c fcase) key() string {
+	if c.Errno != "" {
+		return fmt.Sprint(c.configKey(), c.Fault, c.K, c.Errno)
+	}
+	return fmt.Sprint(c.configKey(), c.Fault, c.K)
+}
 
 func (c fcase) zname() string {
 	if c.Gzip {
@@ -78,6 +87,11 @@ func (c fcase) validate() error {
 	default:
 		return fmt.Errorf("unknown fault kind %q", c.Fault)
 	}
+	switch c.Errno {
+	case "", "epipe", "enospc", "eio", "edquot", "efbig":
+	default:
+		return fmt.Errorf("unknown errno %q", c.Errno)
+	}
 	return nil
 }
 
@@ -95,6 +109,9 @@ func (c fcase) args(fault string, k int64, trace bool) []string {
 	}
 	if trace {
 		a = append(a, "-trace")
+	}
+	if c.Errno != "" && fault != "none" {
+		a = append(a, "-errno", c.Errno)
 	}
 	return a
 }
@@ -344,6 +361,11 @@ func classify(c fcase, r *reference) fclass {
 	}
 	f.Labels = append(f.Labels, "writer:"+c.Writer, "stream:"+c.zname(), "kind:"+c.Fault, sizeClass,
 		fmt.Sprintf("close_file:%v", c.Close))
+	if c.Errno != "" && c.Fault != "none" {
+		f.Labels = append(f.Labels, "error:os_errno", "errno:"+c.Errno)
+	} else {
+		f.Labels = append(f.Labels, "error:private_value")
+	}
 	if c.Workers > 1 {
 		f.Labels = append(f.Labels, "workers>1")
 	}
@@ -457,7 +479,9 @@ func classify(c fcase, r *reference) fclass {
 	return f
 }
 
-func (c fcase) checkName(f fclass) string { return "fault_" + c.Writer + "_" + c.zname() + "_" + f.Phase }
+func (c fcase) checkName(f fclass) string {
+	return "fault_" + c.Writer + "_" + c.zname() + "_" + f.Phase
+}
 
 // ------------------------------------------------------------------ the oracle
 
